@@ -395,6 +395,12 @@ def check_file_remote(ctx, case):
                 "had_to_move": sorted(had_to_move), "arrived": sorted(arrived), "failing": sorted(failing & had_to_move)})
     for o in arrived:
         ctx.oracle(md5hex(stores.read_obj(odb.path, o)) == o, case, {"why": "a fetched object has the wrong bytes", "oid": o})
+    # correspondence with Fetch.fetch: the counts and the cache
+    items = [[md5hex(v), "missing" if k in absent else "failed" if md5hex(v) in failing else "ok"] for k, v in sorted(files.items())]
+    ans = ctx.driver.ask({"op": "fetch_counts", "cache": sorted(before), "items": items})
+    ctx.corr("Fetch.fetch~fetch() from a file storage (counts, cache)", case,
+             {"fetched": res[0], "failed": res[1], "cache": sorted(o for o in after if not o.endswith(".dir"))},
+             {"fetched": ans.get("fetched"), "failed": ans.get("failed"), "cache": sorted(ans.get("cache", []))})
     # a clean retry completes the cache
     kind2, res2 = safe_call(lambda: fetch(collect([idx], "remote")))
     final = set(stores.listing_of(odb.path))
